@@ -69,7 +69,7 @@ def value_and_target(rng, u, obj):
 
 
 def gen_enc(rng, tier):
-    for u, desc, ctx, obj in instances(rng, tier, n_cases(tier, 50, 1200), 5):
+    for u, desc, ctx, obj in instances(rng, tier, n_cases(tier, 100, 1200), 5):
         value, _ = value_and_target(rng, u, obj)
         yield {"ctx": ctx, "value": value, "factory": rng.choice(["dict", "filter_none"]),
                "ignore_default_attributes": rng.random() < 0.25, "route": rng.choice(["dict", "json"]),
@@ -95,7 +95,7 @@ def cmp_skip(mo, io, a):
 
 
 def gen_dec(rng, tier):
-    for u, desc, ctx, obj in instances(rng, tier, n_cases(tier, 50, 1200), 4):
+    for u, desc, ctx, obj in instances(rng, tier, n_cases(tier, 90, 1200), 4):
         value, target = value_and_target(rng, u, obj)
         fac = rng.choice(["dict", "filter_none"])
         try:
@@ -146,7 +146,7 @@ def classify_dec(a, o):
 
 
 def gen_rt(rng, tier):
-    for u, desc, ctx, obj in instances(rng, tier, n_cases(tier, 50, 1200), 5):
+    for u, desc, ctx, obj in instances(rng, tier, n_cases(tier, 100, 1200), 5):
         value, target = value_and_target(rng, u, obj)
         yield {"ctx": ctx, "value": value, "target": target, "factory": rng.choice(["dict", "filter_none"]), "config": {},
                "ignore_default_attributes": rng.random() < 0.2, "route": rng.choice(["dict", "json"]), "desc": desc, "_uni": u.modname}
